@@ -1,6 +1,10 @@
 package main
 
-import "time"
+import (
+	"time"
+
+	"github.com/hashicorp/raft"
+)
 
 // Generators for the node-sequence component (comp 6) and the property monitors that are
 // evaluated on the implementation's observed behaviour.
@@ -572,4 +576,60 @@ func c06monitor(cw *caseWriter) func(tag string, in, obs []uint64) {
 func runC06(cw *caseWriter, tier string, seed uint64) {
 	r := &rng{s: seed}
 	c06gen(cw, tier, r)
+	runC14cand(cw, tier, &rng{s: seed*47 + 13}) // candidate loop: terms learned from answers are persisted before they are acted on
+	c06readFaults(cw, &rng{s: seed + 3})
+}
+
+// component 606 (monitored only): transient READ errors of the stable store inside requestVote.
+// A server that has durably granted its vote of term T to candidate X is asked for the same term by candidate Y
+// (log up to date, no leader known, or the leadership-transfer flag set) while the read of LastVoteTerm and/or
+// LastVoteCand fails once. Property (C06): at most one candidate per term is granted, "when its stable store
+// returns an error at any point" - the second request must not be granted, and the durable vote must still name X.
+func c06readFaults(cw *caseWriter, r *rng) {
+	n := 0
+	for _, fk := range [][]string{{"LastVoteTerm"}, {"LastVoteCand"}, {"LastVoteTerm", "LastVoteCand"}, {"CurrentTerm"}} {
+		for _, transfer := range []bool{false, true} {
+			for _, newer := range []uint64{0, 1} {
+				tag := cw.tag("rf")
+				stable := NewMapStable()
+				logs := NewMapLogStore(nil)
+				logs.m[1] = &raft.Log{Index: 1, Term: 1, Type: raft.LogConfiguration, Data: raft.EncodeConfiguration(mkConfig(cfgSAB))}
+				logs.m[2] = &raft.Log{Index: 2, Term: 2, Type: raft.LogCommand, Data: dataOf(202)}
+				T := uint64(3)
+				stable.kvInt["CurrentTerm"] = T - newer // newer = 1: the request also carries a newer term than the server's
+				stable.kvInt["LastVoteTerm"] = T
+				stable.kv["LastVoteCand"] = []byte(addrStr(2))
+				if newer == 1 {
+					// a vote record of term T with a current term T-1 is what a crash between persistVote's writes cannot leave;
+					// use a record of the server's own term instead and ask for that term
+					stable.kvInt["CurrentTerm"] = T
+				}
+				nd, err := newNode(nodeOpts{id: 1, trailing: 100, maxAppend: 4, startFSM: true}, logs, stable, nil)
+				if err != nil {
+					continue
+				}
+				stable.mu.Lock()
+				stable.readFail = map[string]int{}
+				for _, k := range fk {
+					stable.readFail[k] = 1
+				}
+				stable.mu.Unlock()
+				req := &raft.RequestVoteRequest{RPCHeader: header(3, 3), Term: T, LastLogIndex: 2, LastLogTerm: 2, LeadershipTransfer: transfer}
+				resp, _ := nd.r.VerifProcessRPC(req, nil)
+				granted := false
+				if rv, ok := resp.(*raft.RequestVoteResponse); ok && rv != nil {
+					granted = rv.Granted
+				}
+				_, vt, vc := stable.Triple()
+				n++
+				if granted {
+					cw.monitor("C06", tag, "two-candidates-granted-in-one-term", "vote of term %d durably granted to server 2; a RequestVote of server 3 for term %d with a failing read of %v was GRANTED (durable vote now: term %d candidate %d)", T, T, fk, vt, vc)
+				} else if vt == T && vc != 2 {
+					cw.monitor("C06", tag, "durable-vote-of-a-term-replaced", "vote of term %d was durably granted to server 2; after a refused RequestVote with a failing read of %v the record names %d", T, fk, vc)
+				}
+				nd.shutdown()
+			}
+		}
+	}
+	cw.stat("c06_read_fault_cases", n)
 }
